@@ -386,6 +386,11 @@ pred_find_seq::result (value_seq &haystack, value_seq &needle) const
 {
   auto const &hay = *haystack.get_seq ();
   auto const &need = *needle.get_seq ();
+  // An empty sequence is found in any sequence, an empty one included.
+  // std::search would then return hay.end ().
+  if (need.empty ())
+    return pred_result::yes;
+
   return pred_result
     (std::search (hay.begin (), hay.end (),
 		  need.begin (), need.end (),
